@@ -1,0 +1,156 @@
+//go:build verif
+
+// Contracts for the verification machinery in /verif (govc). This file is only compiled with -tags verif;
+// it adds no behaviour to the package. Syntax: see /verif/DESIGN.md, Appendix A.
+package ahtree
+
+import "crypto/sha256"
+
+// verifAssume / verifAssert are the harness primitives: govc treats them as assumption and obligation;
+// natively (replays) a violated assertion panics with its label.
+func verifAssume(c bool) {
+	if !c {
+		panic("verifAssume: precondition of the harness not met")
+	}
+}
+
+func verifAssert(label string, c bool) {
+	if !c {
+		panic("verifAssert violated: " + label)
+	}
+}
+
+// ------------------------------------------------------------------------------------------------
+// C01 / C08: client-side verifiers of the append-only hash tree (owner: con-c01).
+// The reference constructions are ordinary recursive Go functions over the list of remaining proof terms;
+// they use the real hashing expression (SHA-256 over NodePrefix || left || right).
+
+// spec_node is the reference inner-node hash: SHA-256(NodePrefix || l || r).
+func spec_node(l, r [sha256.Size]byte) [sha256.Size]byte {
+	b := [1 + sha256.Size*2]byte{NodePrefix}
+	copy(b[1:], l[:])
+	copy(b[1+sha256.Size:], r[:])
+	return sha256.Sum256(b[:])
+}
+
+// spec_inclrest: reference evaluation of an inclusion path. cur is the digest of the node at zero-based position
+// i1 of its level, j1 the position of the last node of that level, p the remaining proof terms (bottom-up).
+// The node is a left child iff its position is even and it is not the last node of the level (a last node at an
+// even position is promoted: its proof term is the left sibling of an ancestor).
+func spec_inclrest(p [][sha256.Size]byte, i1, j1 uint64, cur [sha256.Size]byte) [sha256.Size]byte {
+	if len(p) == 0 {
+		return cur
+	}
+	l, r := p[0], cur
+	if i1%2 == 0 && i1 != j1 {
+		l, r = cur, p[0]
+	}
+	return spec_inclrest(p[1:], i1>>1, j1>>1, spec_node(l, r))
+}
+
+// spec_lastrest: reference evaluation of the path of the LAST leaf: every proof term is a left sibling.
+func spec_lastrest(p [][sha256.Size]byte, cur [sha256.Size]byte) [sha256.Size]byte {
+	if len(p) == 0 {
+		return cur
+	}
+	return spec_lastrest(p[1:], spec_node(p[0], cur))
+}
+
+//@ func EvalInclusion
+//@   pure
+//@   assigns nothing
+//@   ensures spec: result == old(spec_inclrest(iproof, i-1, j-1, iLeaf))
+//@   loop 1 invariant dig: spec_inclrest(iproof[rangeindex+1:], i1, j1, ciRoot) == old(spec_inclrest(iproof, i-1, j-1, iLeaf))
+//@   loop 1 invariant pfx: b[0] == 1
+
+//@ func VerifyInclusion
+//@   pure
+//@   assigns nothing
+//@   ensures weak: result ==> 1 <= i && i <= j && (i < j ==> len(iproof) > 0)
+//@   &&   spec_inclrest(iproof, i-1, j-1, iLeaf) == jRoot
+//@   ensures strong: 1 <= i && i <= j && (i < j ==> len(iproof) > 0)
+//@   &&   spec_inclrest(iproof, i-1, j-1, iLeaf) == jRoot ==> result
+//@   ensures weak_eval: result ==> 1 <= i && i <= j && (i < j ==> len(iproof) > 0) && EvalInclusion(iproof, i, j, iLeaf) == jRoot
+//@   ensures strong_eval: 1 <= i && i <= j && (i < j ==> len(iproof) > 0) && EvalInclusion(iproof, i, j, iLeaf) == jRoot ==> result
+
+//@ func EvalLastInclusion
+//@   pure
+//@   assigns nothing
+//@   ensures spec: result == old(spec_lastrest(iproof, leaf))
+//@   loop 1 invariant dig: spec_lastrest(iproof[rangeindex+1:], root) == old(spec_lastrest(iproof, leaf))
+//@   loop 1 invariant pfx: b[0] == 1
+
+//@ func VerifyLastInclusion
+//@   pure
+//@   assigns nothing
+//@   ensures weak: result ==> i >= 1 && spec_lastrest(iproof, leaf) == root
+//@   ensures strong: i >= 1 && spec_lastrest(iproof, leaf) == root ==> result
+//@   ensures weak_eval: result ==> i >= 1 && EvalLastInclusion(iproof, i, leaf) == root
+//@   ensures strong_eval: i >= 1 && EvalLastInclusion(iproof, i, leaf) == root ==> result
+
+// spec_cons: reference evaluation of a consistency proof between the trees of sizes i and j (fn = i-1, sn = j-1 are
+// the zero-based positions of the last leaves), as a state function that follows the path of leaf fn bottom-up.
+// big == false computes the root of the smaller tree, big == true the root of the bigger tree. p = remaining proof terms.
+//
+//	mode 0: skip the levels where the node is a right child (the subtree rooted at its parent is complete); then the
+//	        first proof term is the root of that complete subtree, common to both trees (c is ignored in mode 0: callers pass spec_zero()).
+//	mode 1: one proof term per level: a left sibling (fn odd, or fn == sn: promoted last node) belongs to both trees,
+//	        a right sibling belongs only to the bigger tree.
+//	mode 2: after a left sibling, skip the levels where the node is a left child without right sibling in the smaller
+//	        tree (fn even and not the root), then move to the parent level.
+func spec_zero() [sha256.Size]byte { return [sha256.Size]byte{} }
+
+func spec_cons(big bool, mode int, p [][sha256.Size]byte, fn, sn uint64, c [sha256.Size]byte) [sha256.Size]byte {
+	if mode == 0 {
+		if fn%2 == 1 {
+			return spec_cons(big, 0, p, fn>>1, sn>>1, c)
+		}
+		return spec_cons(big, 1, p[1:], fn, sn, p[0])
+	}
+	if mode == 2 {
+		if fn%2 == 0 && fn != 0 {
+			return spec_cons(big, 2, p, fn>>1, sn>>1, c)
+		}
+		return spec_cons(big, 1, p[1:], fn>>1, sn>>1, c)
+	}
+	if len(p) == 0 {
+		return c
+	}
+	left := fn%2 == 1 || fn == sn
+	l, r := c, p[0]
+	if left {
+		l, r = p[0], c
+	}
+	n := spec_node(l, r)
+	if left {
+		return spec_cons(big, 2, p, fn, sn, n)
+	}
+	if big {
+		return spec_cons(big, 1, p[1:], fn>>1, sn>>1, n)
+	}
+	return spec_cons(big, 1, p[1:], fn>>1, sn>>1, c)
+}
+
+//@ func EvalConsistency
+//@   requires len(cproof) > 0
+//@   pure
+//@   assigns nothing
+//@   ensures specI: r0 == old(spec_cons(false, 0, cproof, i-1, j-1, spec_zero()))
+//@   ensures specJ: r1 == old(spec_cons(true, 0, cproof, i-1, j-1, spec_zero()))
+//@   loop 1 invariant skipI: spec_cons(false, 0, cproof, fn, sn, spec_zero()) == old(spec_cons(false, 0, cproof, i-1, j-1, spec_zero()))
+//@   loop 1 invariant skipJ: spec_cons(true, 0, cproof, fn, sn, spec_zero()) == old(spec_cons(true, 0, cproof, i-1, j-1, spec_zero()))
+//@   loop 2 invariant digI: spec_cons(false, 1, cproof[rangeindex+2:], fn, sn, ciRoot) == old(spec_cons(false, 0, cproof, i-1, j-1, spec_zero()))
+//@   loop 2 invariant digJ: spec_cons(true, 1, cproof[rangeindex+2:], fn, sn, cjRoot) == old(spec_cons(true, 0, cproof, i-1, j-1, spec_zero()))
+//@   loop 2 invariant pfx: b[0] == 1
+//@   loop 3 invariant digI: spec_cons(false, 2, cproof[rangeindex+2:], fn, sn, ciRoot) == old(spec_cons(false, 0, cproof, i-1, j-1, spec_zero()))
+//@   loop 3 invariant digJ: spec_cons(true, 2, cproof[rangeindex+2:], fn, sn, cjRoot) == old(spec_cons(true, 0, cproof, i-1, j-1, spec_zero()))
+
+//@ func VerifyConsistency
+//@   pure
+//@   assigns nothing
+//@   ensures weak: result ==> 1 <= i && i <= j && (i < j ==> len(cproof) > 0)
+//@   &&   (len(cproof) == 0 ==> iRoot == jRoot)
+//@   &&   (len(cproof) > 0 ==> spec_cons(false, 0, cproof, i-1, j-1, spec_zero()) == iRoot && spec_cons(true, 0, cproof, i-1, j-1, spec_zero()) == jRoot)
+//@   ensures strong: 1 <= i && i <= j && (i < j ==> len(cproof) > 0)
+//@   &&   (len(cproof) == 0 ==> iRoot == jRoot)
+//@   &&   (len(cproof) > 0 ==> spec_cons(false, 0, cproof, i-1, j-1, spec_zero()) == iRoot && spec_cons(true, 0, cproof, i-1, j-1, spec_zero()) == jRoot) ==> result
